@@ -389,7 +389,16 @@ Inductive op :=
 | OSetGlobal (c : option cid)
 | ORender (o : objspec) (copt : option cid) (nocolor : bool) (pa : palarg) (mode : Z) (ids : list pid)
 | ONewH (h : Z) (ids : list pid)
-| OHelp (h : Z) (o : objspec).
+| OHelp (h : Z) (o : objspec)
+(* lazy results (ppobj.py CHTextResult 27-102): r = obj.ch_text(...) selects the palette at once and keeps it;
+   the text is produced when the result is consumed -- possibly later, possibly line by line, interleaved
+   with the consumption of other results.  The handle table is the one of the HCommand objects (a handle
+   -> the palette it holds). *)
+| OMake (h : Z) (K : cls) (copt : option cid) (nocolor : bool) (pa : palarg) (ids : list pid)
+                                                     (* r_h = obj.ch_text(colors_conf, no_color, palette) *)
+| ONext (h : Z) (o : objspec) (ids : list pid)       (* next(it_h): [o] = the sub-palettes first requested and the line
+                                                        yielded by this step of the generator *)
+| OWholeH (h : Z) (o : objspec) (mode : Z) (ids : list pid).   (* str(r_h) / full iteration / both *)
 
 Definition new_conf (nocolor : bool) (init : list (synt * descr)) (held : bool) : conf :=
   fst (add_raw (fst (add_raw (mkConf nocolor [] [] [] held) init)) builtin_config).
@@ -419,6 +428,19 @@ Definition step (w : world) (o : op) : res (world * list (list Z)) :=
       match zfind h (w_hcmds w) with
       | None => Err KeyErr
       | Some cp => bind (gen_lines w cp o) (fun wl => Ok (gc (fst wl), [text_lines (snd wl)]))
+      end
+  | OMake h K copt nocolor pa ids =>
+      bind (mk_palette (set_oracle w ids) K pa copt nocolor) (fun wp =>
+        Ok (gc (set_hcmds (fst wp) ((h, snd wp) :: zdel h (w_hcmds (fst wp)))), []))
+  | ONext h o ids =>
+      match zfind h (w_hcmds w) with
+      | None => Err KeyErr
+      | Some cp => bind (gen_lines (set_oracle w ids) cp o) (fun wl => Ok (gc (fst wl), [text_lines (snd wl)]))
+      end
+  | OWholeH h o mode ids =>
+      match zfind h (w_hcmds w) with
+      | None => Err KeyErr
+      | Some cp => bind (consume (set_oracle w ids) cp o mode) (fun wt => Ok (gc (fst wt), snd wt))
       end
   end.
 
